@@ -27,8 +27,8 @@ PROP = dict(
     ],
     assumptions=[
         "confirmed crashes are start-up probes (fecorpus::GATES), run in a child process before the stream: D53 (stack overflow on "
-        "`fn f() { f }`), D54, D55, D56, D57 have been fixed and are regression inputs (a crash is a failing input again); F8 "
-        "(`array<>`), F9 (`PushNil(0); Pop` in the optimizer) and F10 (blanket `implement I for T`) have a fix pending: while such a "
+        "`fn f() { f }`), D54, D55, D56, D57 have been fixed and are regression inputs (a crash is a failing input again); D64 "
+        "(`array<>`), D65 (`PushNil(0); Pop` in the optimizer) and D66 (blanket `implement I for T`) have a fix pending: while such a "
         "probe still crashes, crashes at the site it reports are counted under its id and named in a note; once it stops crashing "
         "it gates nothing",
         "only the main file is damaged; imports of the corpus programs are left unresolved",
@@ -40,7 +40,7 @@ PROP = dict(
                "rest of the property (parser recovery, checker on partial ASTs) is a crash search: every query at every byte offset "
                "of prefixes, mutations and garbage, with process isolation so that stack overflows and hangs are caught as well.",
     level_note="partial by design: no model of the checker's behaviour on partial ASTs; absence of crashes outside the modelled "
-               "parts is searched, not proved. The search found five crashing inputs on the pinned tree (D53-D57), all in "
+               "parts is searched, not proved. The search found eight crashing inputs on the pinned tree (D53-D57, D64-D66), all in "
                "abra_core::check itself.",
     technique="Lean 4 theorems (induction over the backward scan, core UTF-8 position lemmas; corollary of the C35 search "
               "theorems) + process-isolated crash search over prefixes/mutations/garbage at every byte offset + model tie of the "
